@@ -177,6 +177,10 @@ impl Ctx {
         let primary = if faulty && matches!(class, "hang" | "no-return") { "C18" } else { prop };
         sh::violation(primary, class, msg.clone());
         let mut also: Vec<&str> = vec![];
+        if self.has_foreach && matches!(class, "data-race" | "overlap") {
+            // for_each / fold running on a racy wrapped iterator: "exactly once" cannot be promised
+            also.push("C12");
+        }
         if self.cfg.kind.adaptor() && primary != "C13" && !matches!(class, "data-race" | "overlap") {
             also.push("C13");
         }
